@@ -3,7 +3,8 @@
 //! note: process_onion_failure_inner: what the sender learns from a decoded failure -- a failure that did not come from the final node always blames a node or a channel next to the node that sent it (so the retry avoids it), and the payment is reported as failed permanently only on the final node's word
 //! trusted: R15 (deep slice): the classification block of process_onion_failure_inner (from reading the code's debug field to the FailureLearnings value) verbatim as a function of (error_code, is_from_final_non_blinded_node, route_hop, failing_route_hop, err_packet); peeling the failure onion, the HMAC test and attribution-data handling before it are dropped and not claimed here (hold times: unit u14b)
 //! trusted: env: LocalHTLCFailureReason is a three-variant skeleton (the two variants the block names + Other(code)); its predicates is_badonion / is_node / is_permanent / is_temporary / get_onion_debug_field are external_body answering uninterpreted functions of the code (any code table), is_recipient_failure unconstrained; ErrorHop / RouteHop / TrampolineHop / FailureLearnings are the function-local types re-declared (ErrorHop::{pubkey, short_channel_id} external_body with the bodies' meaning); NetworkUpdate is extracted; PublicKey opaque Copy; R3: log statements removed; R8: `v.get(a..b)` on the failure message -> get_range (Some iff a <= b <= len, then the bytes a..b), `u16::from_be_bytes(s.try_into().expect(..))` -> be16 (unconstrained value)
-//! assume: the path has no trampoline hops: the hop that sent the failure and the failing hop are ErrorHop::RouteHop; when the failure is from the final node the failing hop is that hop (how the caller chooses failing_route_hop)
+//! assume: the path has no trampoline hops: the hop that sent the failure and the failing hop are ErrorHop::RouteHop (that the failing hop is the sender itself exactly when the failure is the final node's is no longer assumed: slice hop_a_failure_is_attributed_to)
+//! trusted: R15 (deep slice): process_onion_failure_inner: the statements that choose is_from_final_non_blinded_node and failing_route_hop, the test carried verbatim; the blinded-path arm (`break` with FailureLearnings for a blinded failure) is returned as None and not claimed; `iter.peek()` is the parameter next_hop
 //! trusted: assume_specification for core::cmp::max / core::cmp::min (std definitions): present in every unit so that a change that introduces them is verified instead of being rejected by the tool
 //! trusted: closing_hands_back: ChannelContext::force_shutdown: the match inside the loop that drains the holding cell, verbatim as a function of one held update (R15 deep slice; enum HTLCUpdateAwaitingACK extracted over skeleton field types); the second loop (HTLCs announced only in a blocked monitor update): the LatestCounterpartyCommitment arm's scan of the update's two HTLC lists (R6: `A.iter().map(..).chain(B.iter().map(..)).any(..)` as two index loops carrying the three closure bodies verbatim; //@oneof: a scan of a single list `E.iter().any(..)` is accepted as an alternative shape and verified against the same contract); the LatestCounterpartyCommitmentTXInfo arm is not sliced
 //! trusted: onchain_failed: ChannelMonitor::get_onchain_failed_outbound_htlcs: the test that recognises the confirmed transaction as a counterparty commitment and the burial test of the funding spend are deep R15 slices; R8: `Some(x) == opt` on txids -> opt_txid_eq (verified helper); walking the HTLCs (closure inside a macro) is dropped and not claimed
@@ -99,6 +100,28 @@ pub open spec fn scid_of(h: ErrorHop) -> u64 { match h { ErrorHop::RouteHop(rh) 
     payment_failed_permanently: error_code.is_permanent(),
 //@end
 
+
+// ---- which hop a decoded failure is attributed to (the statement in front of the classification above) ----
+pub struct SharedSecretStub { pub id: u64 }
+//@extract lightning/src/ln/onion_utils.rs :: fn process_onion_failure_inner
+//@slice R15
+    let next_hop = iter.peek(); is_from_final_non_blinded_node = $fin:seq; let failing_route_hop = if is_from_final_non_blinded_node { route_hop } else { match next_hop { Some((_, (Some(hop), _))) => hop, _ => { $blinded:any }, } };
+//@with
+    fn hop_a_failure_is_attributed_to<'a, 'b>(route_hop: &'a ErrorHop<'b>, next_hop: Option<&'a (usize, (Option<ErrorHop<'b>>, SharedSecretStub))>, num_blinded_hops: usize) -> (bool, Option<&'a ErrorHop<'b>>) {
+        let is_from_final_non_blinded_node = $fin;
+        let failing_route_hop = if is_from_final_non_blinded_node { Some(route_hop) } else { match next_hop { Some((_, (Some(hop), _))) => Some(hop), _ => None } };
+        (is_from_final_non_blinded_node, failing_route_hop)
+    }
+//@ret r
+//@ensures P C03,C14 a-failure-is-taken-as-the-final-nodes-only-when-no-hop-follows-the-one-that-sent-it-and-at-most-one-blinded-hop-exists-otherwise-the-channel-blamed-is-the-one-to-the-next-hop
+    r.0 == (next_hop is None && num_blinded_hops <= 1),
+    r.0 ==> r.1 == Some(route_hop),
+    !r.0 ==> r.1 == (match next_hop { Some(n) => (match &n.1.0 { Some(h) => Some(h), None => None::<&ErrorHop> }), None => None::<&ErrorHop> }),
+//@mutant failure_of_the_last_unblinded_hop_before_a_blinded_path_taken_as_the_recipients
+    next_hop.is_none() && num_blinded_hops <= 1
+//@with
+    next_hop.is_none()
+//@end
 // ---- restart: which outbound HTLCs a monitor reports as failed on chain (ChannelMonitor::get_onchain_failed_outbound_htlcs) ----
 pub mod onchain_failed {
 use vstd::prelude::*;
